@@ -31,13 +31,32 @@ def _inline(fi, e: ast.AST, depth=8) -> ast.AST:
     return T(depth).visit(copy.deepcopy(e))
 
 
+class _Challenge:
+    """`clamp_scalar(H_small(a, b, c))`, the hash possibly computed into a local first."""
+
+    def __init__(self, clamp_call, hash_call):
+        self.node = clamp_call
+        self.hash = hash_call
+        self.lineno = clamp_call.lineno
+        self.args = [hash_call]          # same shape as the plain nested call
+
+
 def _challenges(fi):
     """All `clamp_scalar(H_small(a, b, c))` expressions of the handler."""
+    defs = {}
+    for st in fi.node.body:
+        if isinstance(st, ast.Assign) and len(st.targets) == 1 and isinstance(st.targets[0], ast.Name):
+            defs.setdefault(st.targets[0].id, []).append(st.value)
     out = []
     for n in ast.walk(fi.node):
-        if isinstance(n, ast.Call) and dotted(n.func) == 'clamp_scalar' and n.args and \
-                isinstance(n.args[0], ast.Call) and dotted(n.args[0].func) == 'H_small' and len(n.args[0].args) == 3:
-            out.append(n)
+        if isinstance(n, ast.Call) and dotted(n.func) == 'clamp_scalar' and n.args:
+            a = n.args[0]
+            hops = 0
+            while isinstance(a, ast.Name) and len(defs.get(a.id, [])) == 1 and hops < 4:
+                a = defs[a.id][0]
+                hops += 1
+            if isinstance(a, ast.Call) and dotted(a.func) == 'H_small' and len(a.args) == 3:
+                out.append(_Challenge(n, a))
     return out
 
 
@@ -78,7 +97,7 @@ def run(w: World, rep: Report):
         used = []
         for c in ch:
             for n in ast.walk(mk.node):
-                if isinstance(n, ast.Assign) and n.value is c and isinstance(n.targets[0], ast.Name):
+                if isinstance(n, ast.Assign) and n.value is c.node and isinstance(n.targets[0], ast.Name):
                     var = n.targets[0].id
                     for m in ast.walk(mk.node):
                         if isinstance(m, ast.Call) and (dotted(m.func) or '').endswith('scalar_mul') and \
